@@ -567,6 +567,106 @@ def pool_oracles(out, world, tier, rng, model, xcheck, items):
         out.disagreements.append({"correspondence": "generator", "what": "the walk pieces do not cover every ordered pair", "covered": len(covered & pairs), "expected": m * m})
 
 
+def environment_mutation_stream(out, root):
+    """The verdict is a function of the file system as it IS: between two analyses of the same command in one process the
+    world changes - a module appears next to the script or goes away, the script's bytes change while size and mtime stay,
+    the script is replaced by a rename, the directory is swapped through a symlink - and each answer must equal the answer
+    of a fresh interpreter asked at that moment."""
+    import subprocess
+    from pathlib import Path
+    from dippy.core import analyzer as an
+    from dippy.core.config import parse_config
+
+    cfg = parse_config("")
+    probe = ("import sys, json; from pathlib import Path; from dippy.core.analyzer import analyze; from dippy.core.config import parse_config; "
+             "d = analyze(sys.argv[1], parse_config(''), Path(sys.argv[2])); print(json.dumps([d.action, d.reason]))")
+
+    def fresh(cmd, cwd):
+        r = subprocess.run([core.PY, "-c", probe, cmd, cwd], capture_output=True, text=True, timeout=60,
+                           env={**os.environ, "PYTHONPATH": os.path.join(lib.REPO, "src")})
+        return json.loads(r.stdout) if r.returncode == 0 and r.stdout.strip() else ["error", r.stderr[-200:]]
+
+    base = os.path.join(root, "mutate")
+    safe_src = "import json\nprint(json.dumps([1, 2]))\n"
+    bad_src = "import os\nos.system('id')#" + "x" * 200 + "\n"
+
+    def pad(src, n):
+        return src + "#" * (n - len(src) - 1) + "\n" if len(src) < n else src
+
+    n = max(len(safe_src), len(bad_src)) + 8
+    scenarios = []
+    for name, steps in [
+        ("sibling-appears", [("write", "json.py", "x = 1\n")]), ("sibling-dir-appears", [("mkdir", "json")]), ("sibling-pyc-appears", [("write", "json.pyc", "")]),
+        ("transitive-sibling-appears", [("write", "re.py", "x = 1\n")]),
+        ("sibling-goes", [("write", "json.py", "x = 1\n"), ("analyze",), ("remove", "json.py")]),
+        ("same-size-same-mtime", [("rewrite-keep-stat", "x.py", pad(bad_src, n))]),
+        ("replaced-by-rename", [("rename-in", "x.py", pad(bad_src, n))]),
+        ("script-removed", [("remove", "x.py")]),
+        ("dir-swapped", [("swap-dir",)]),
+    ]:
+        scenarios.append((name, steps))
+    for name, steps in scenarios:
+        d = os.path.join(base, name, "w")
+        os.makedirs(d, exist_ok=True)
+        alt = os.path.join(base, name, "alt")
+        os.makedirs(alt, exist_ok=True)
+        with open(os.path.join(d, "x.py"), "w") as f:
+            f.write(pad(safe_src, n))
+        with open(os.path.join(alt, "x.py"), "w") as f:
+            f.write(pad(bad_src, n))
+        link = os.path.join(base, name, "cur")
+        if os.path.lexists(link):
+            os.unlink(link)
+        os.symlink("w", link)
+        for cmd, cwd in (("python3 x.py", link), (f"python3 {link}/x.py", root)):
+            # restore the starting world for the second spelling
+            for fn in os.listdir(d):
+                p = os.path.join(d, fn)
+                if fn != "x.py":
+                    (os.rmdir if os.path.isdir(p) else os.unlink)(p)
+            with open(os.path.join(d, "x.py"), "w") as f:
+                f.write(pad(safe_src, n))
+            os.unlink(link)
+            os.symlink("w", link)
+            history = []
+            for step in [("analyze",)] + list(steps) + [("analyze",)]:
+                kind = step[0]
+                if kind == "analyze":
+                    got = an.analyze(cmd, cfg, Path(cwd))
+                    want = fresh(cmd, cwd)
+                    out.case(["mutation", name, cmd, len(history)])
+                    out.count("stream", "environment-mutation")
+                    if [got.action, got.reason] != want:
+                        out.violations.append({"kind": "stale-world", "what": f"after {history or 'nothing'}: {cmd!r} in one process answers {got.action} ({got.reason!r}), "
+                                               f"a fresh interpreter asked now answers {want[0]} ({want[1]!r})",
+                                               "scenario": name, "command": cmd, "history": history, "signature_text": f"stale-world | {name} | {cmd.split()[-1][-8:]}"})
+                elif kind == "write":
+                    with open(os.path.join(d, step[1]), "w") as f:
+                        f.write(step[2])
+                elif kind == "mkdir":
+                    os.makedirs(os.path.join(d, step[1]), exist_ok=True)
+                elif kind == "remove":
+                    os.unlink(os.path.join(d, step[1]))
+                elif kind == "rewrite-keep-stat":
+                    p = os.path.join(d, step[1])
+                    st = os.stat(p)
+                    with open(p, "r+") as f:
+                        f.write(step[2])
+                        f.truncate()
+                    os.utime(p, ns=(st.st_atime_ns, st.st_mtime_ns))
+                elif kind == "rename-in":
+                    p = os.path.join(d, step[1])
+                    st = os.stat(p)
+                    with open(p + ".new", "w") as f:
+                        f.write(step[2])
+                    os.utime(p + ".new", ns=(st.st_atime_ns, st.st_mtime_ns))
+                    os.replace(p + ".new", p)
+                elif kind == "swap-dir":
+                    os.unlink(link)
+                    os.symlink("alt", link)
+                history.append(list(step)[:2])
+
+
 def run(tier, seed, replay=None):
     lib.use_repo()
     import dippy.cli as cli
@@ -759,6 +859,8 @@ def run(tier, seed, replay=None):
         if envelope_verdict(a_hist)[0] != envelope_verdict(a_fresh)[0]:
             out.violations.append({"kind": "history-dependence", "what": "check_command's verdict depends on MODE", "history": h, "final": [q],
                                    "signature_text": "history:check_command"})
+        if not replay:
+            environment_mutation_stream(out, root)
         # scratch paths relative to the root of the run, so that a replay file works in the next run's scratch directory
         out.violations = json.loads(json.dumps(out.violations).replace(root, "{ROOT}"))
         out.disagreements = json.loads(json.dumps(out.disagreements).replace(root, "{ROOT}"))
